@@ -101,16 +101,27 @@ def basic_auth(realm, checkpassword, debug=False, accept_charset='utf-8'):
 
     charset = accept_charset.upper()
     charset_declaration = (
-        (', charset="%s"' % charset)
+        (', charset="%s"' % _quoted_string_content(charset))
         if charset != fallback_charset
         else ''
     )
     # Respond with 401 status and a WWW-Authenticate header
     cherrypy.serving.response.headers['www-authenticate'] = (
-        'Basic realm="%s"%s' % (realm, charset_declaration)
+        'Basic realm="%s"%s' % (
+            _quoted_string_content(realm), charset_declaration,
+        )
     )
     raise cherrypy.HTTPError(
         401, 'You are not authorized to access that resource')
+
+
+def _quoted_string_content(value):
+    """Return value as it has to stand between the quotes of a quoted-string.
+
+    A backslash (or a double quote) inside a quoted-string is written as
+    a quoted-pair, see :rfc:`7230#section-3.2.6`.
+    """
+    return value.replace('\\', '\\\\').replace('"', '\\"')
 
 
 def _try_decode(subject, charsets):
